@@ -93,3 +93,57 @@ Theorem charge_cloned_stream :
         end.
 Proof. exact charge_key_clone. Qed.
 Print Assumptions charge_cloned_stream.
+
+(* ---- AES-GCM (RFC 7714) key budget (Aead.v), OpenSSL configuration; statements printed by Coq's Check ---- *)
+From Srtp Require Import Util Constants KeyLimit Rdb Rdbx Icm World Stream Rtp Rtcp Aead AeadRejectProofs AeadIvProofs.
+(* AES-GCM: srtp_protect_aead charges the key budget exactly once, as its first effect; nothing after it touches any budget   [AeadIvProofs.v] *)
+Theorem C09_protect_aead_charges_once :
+  forall (i : Z) (w : world),
+       let (w0, s0) := protect_aead_pre i w in
+       match s0 with
+       | inl c =>
+           ext (lv (w_s w)) (lv (w_s w0)) /\
+           w_b w0 = w_b w /\
+           w_iv w0 = w_iv w /\
+           p_b c = w_b w /\
+           p_ref c = RList (hdr_ssrc (p_pkt c)) /\
+           (let (w1, s1) := charge_key (p_ref c) (p_ki c) w0 in
+            match s1 with
+            | inl _ => lv (w_s (fst (protect_aead i w))) = lv (w_s w1)
+            | inr s => protect_aead i w = (w1, inr s) /\ w_b w1 = w_b w /\ w_iv w1 = w_iv w
+            end)
+       | inr s => protect_aead i w = (w0, inr s) /\ ext (lv (w_s w)) (lv (w_s w0))
+       end.
+Proof. exact protect_aead_charges_once. Qed.
+Print Assumptions C09_protect_aead_charges_once.
+
+(* AES-GCM: srtp_unprotect_aead charges it once for a packet that has authenticated and not at all otherwise   [AeadIvProofs.v] *)
+Theorem C09_unprotect_aead_charges_after_auth :
+  forall w : world,
+       let (w0, s0) := unprotect_aead_pre w in
+       match s0 with
+       | inl u =>
+           w_s w0 = w_s w /\
+           w_h w0 = w_h w /\
+           w_ev w0 = w_ev w /\
+           (exists (aad d : bytes) (room : Z),
+              gcm_open (k_rtp_c (a_k u)) (ak_tag (k_rtp_a (a_k u)))
+                (aead_rtp_iv (k_salt (a_k u)) (a_ssrc u) (a_est u)) aad d room = (
+              st_ok, a_o u)) /\
+           (let (w1, s1) := charge_key (a_ref u) (a_ki u) w0 in
+            match s1 with
+            | inl _ => ext (lv (w_s w1)) (lv (w_s (fst (unprotect_aead w))))
+            | inr s => unprotect_aead w = (w1, inr s)
+            end)
+       | inr s => unprotect_aead w = (w0, inr s) /\ w_s w0 = w_s w /\ w_h w0 = w_h w /\ w_ev w0 = w_ev w
+       end.
+Proof. exact unprotect_aead_charges_after_auth. Qed.
+Print Assumptions C09_unprotect_aead_charges_after_auth.
+
+(* evaluated: a forged packet is not charged   [AeadIvProofs.v] *)
+Theorem C09_unprotect_aead_forged_not_charged :
+  let w := BoundsRtp.Witness.mkw W.sess0 (W.inpl (take 44 W.wire ++ [6%N])) in
+       snd (unprotect_aead w) = inr st_auth_fail /\ w_s (fst (unprotect_aead w)) = w_s w.
+Proof. exact unprotect_aead_forged_not_charged. Qed.
+Print Assumptions C09_unprotect_aead_forged_not_charged.
+
